@@ -89,4 +89,13 @@ def sizePilot (rc : RC) (pd : PD) : Except Err Sizing :=
             agentCoresPerNode := coresPerNode rc,
             agentGpusPerNode  := rc.gpn }
 
+/-! ### the node figure the agent works with -/
+
+/-- `ResourceManager._init_from_scratch`: the agent was told `told` nodes by the configuration `_prepare_pilot` wrote (0: not
+    told - platforms whose node size the client does not know); `derived` is what the core / GPU figures of the job - which
+    cover the backup nodes too - would give.  With `keepsTold` (the guard of the fallback as read from the source) the
+    derivation is the fallback; otherwise it always replaces what the agent was told -/
+def agentNodes (keepsTold : Bool) (told derived : Nat) : Nat :=
+  if keepsTold then (if told = 0 then derived else told) else derived
+
 end RPVerif.Sizing
